@@ -32,6 +32,7 @@ import (
 	"time"
 
 	"github.com/btcsuite/btcd/address/v2"
+	"github.com/btcsuite/btcd/btcec/v2"
 	"github.com/btcsuite/btcd/btcutil/v2"
 	"github.com/btcsuite/btcd/btcutil/v2/gcs"
 	"github.com/btcsuite/btcd/btcutil/v2/gcs/builder"
@@ -86,6 +87,7 @@ type Item struct {
 	Addrs  []int   `json:"addrs,omitempty"`
 	Inputs []InRef `json:"inputs,omitempty"`
 	Rewind int64   `json:"rewind,omitempty"`
+	Split  bool    `json:"split,omitempty"` // one WatchAddrs / AddAddrs option per address
 	// reply
 	Res string `json:"res,omitempty"` // ok fail notfound
 	// current
@@ -110,7 +112,19 @@ type History struct {
 }
 
 const (
-	nAddr      = 5
+	nAddr = 5
+	// addresses 6..nAddrAll are the forms of two keys K, K2; tokens 6/7, 8/9
+	// and 13/12 are pairs with EQUAL EncodeAddress() and DIFFERENT scripts
+	// (AddressPubKey.EncodeAddress is the pay-to-pubkey-hash encoding of the
+	// serialized key):
+	//   6 P2PKH(hash160(K compressed))     7 P2PK(K compressed)
+	//   8 P2PKH(hash160(K uncompressed))   9 P2PK(K uncompressed)
+	//  10 P2WPKH(hash160(K compressed))   11 P2SH(the P2WPKH script of K)
+	//  12 P2PK(K2 compressed)             13 P2PKH(hash160(K2 compressed))
+	// (address/v2 has no hybrid format: a hybrid serialization parses into
+	// the uncompressed address.)  Every token has its own script, so in the
+	// model an address token still is a script token.
+	nAddrAll   = 13
 	minerTok   = 99
 	poolTokOff = 100
 	rndTokOff  = 900
@@ -122,8 +136,8 @@ const (
 
 var (
 	params      = chaincfg.RegressionNetParams
-	addrs       [nAddr + 1]address.Address
-	addrScripts [nAddr + 1][]byte
+	addrs       [nAddrAll + 1]address.Address
+	addrScripts [nAddrAll + 1][]byte
 	minerScript []byte
 )
 
@@ -150,7 +164,53 @@ func init() {
 	}
 	a, _ := address.NewAddressWitnessPubKeyHash(h, &params)
 	minerScript, _ = txscript.PayToAddrScript(a)
+
+	// the forms of two keys
+	must := func(a address.Address, err error) address.Address {
+		if err != nil {
+			panic(err)
+		}
+		return a
+	}
+	key := func(b byte) *btcec.PublicKey {
+		var sk [32]byte
+		for j := range sk {
+			sk[j] = b + byte(j)
+		}
+		_, pk := btcec.PrivKeyFromBytes(sk[:])
+		return pk
+	}
+	k1, k2 := key(0x11), key(0x71)
+	pkc := must(address.NewAddressPubKey(k1.SerializeCompressed(), &params)).(*address.AddressPubKey)
+	pku := must(address.NewAddressPubKey(k1.SerializeUncompressed(), &params)).(*address.AddressPubKey)
+	pk2 := must(address.NewAddressPubKey(k2.SerializeCompressed(), &params)).(*address.AddressPubKey)
+	addrs[6], addrs[7] = pkc.AddressPubKeyHash(), pkc
+	addrs[8], addrs[9] = pku.AddressPubKeyHash(), pku
+	addrs[10] = must(address.NewAddressWitnessPubKeyHash(address.Hash160(k1.SerializeCompressed()), &params))
+	w10, _ := txscript.PayToAddrScript(addrs[10])
+	addrs[11] = must(address.NewAddressScriptHash(w10, &params))
+	addrs[12], addrs[13] = pk2, pk2.AddressPubKeyHash()
+	seen := map[string]int{}
+	for i := 1; i <= nAddrAll; i++ {
+		s, err := txscript.PayToAddrScript(addrs[i])
+		if err != nil {
+			panic(err)
+		}
+		addrScripts[i] = s
+		if j, dup := seen[string(s)]; dup {
+			panic(fmt.Sprintf("addresses %d and %d have one script", j, i))
+		}
+		seen[string(s)] = i
+	}
+	for _, p := range keyPairs {
+		if addrs[p[0]].EncodeAddress() != addrs[p[1]].EncodeAddress() {
+			panic("key pair does not share its EncodeAddress()")
+		}
+	}
 }
+
+// keyPairs: address tokens with equal EncodeAddress() and different scripts.
+var keyPairs = [][2]int{{6, 7}, {8, 9}, {13, 12}}
 
 type blk struct {
 	tok    int64
@@ -868,8 +928,13 @@ func (k *kase) perform(it *Item) {
 		var as []address.Address
 		for _, a := range it.Addrs {
 			as = append(as, addrs[a])
+			if it.Split {
+				opts = append(opts, neutrino.WatchAddrs(addrs[a]))
+			}
 		}
-		opts = append(opts, neutrino.WatchAddrs(as...))
+		if !it.Split {
+			opts = append(opts, neutrino.WatchAddrs(as...))
+		}
 		var ins []neutrino.InputWithScript
 		for _, r := range it.Inputs {
 			ins = append(ins, neutrino.InputWithScript{OutPoint: *k.outpoint(r), PkScript: k.refScript(r)})
@@ -886,7 +951,11 @@ func (k *kase) perform(it *Item) {
 		for _, a := range it.Addrs {
 			as = append(as, addrs[a])
 		}
-		if len(as) > 0 {
+		if it.Split {
+			for _, a := range as {
+				uo = append(uo, neutrino.AddAddrs(a))
+			}
+		} else if len(as) > 0 {
 			uo = append(uo, neutrino.AddAddrs(as...))
 		}
 		var ins []neutrino.InputWithScript
@@ -1070,6 +1139,51 @@ type gen struct {
 	waitMax   int  // after that many, the wait is brought to its end
 	notCur    bool // the chain source was made "not current" before Start
 	quits     int  // quit items left
+	// several addresses of one key (own PRNG stream: the other draws of a
+	// case do not depend on it)
+	rk       *rand.Rand
+	keyforms bool
+}
+
+// keyPattern is a list of addresses of one key in which two have the same
+// EncodeAddress() and different scripts: either order, with a repeated
+// address, with the witness forms of the key in between.
+func (g *gen) keyPattern() []int {
+	p := keyPairs[g.rk.Intn(len(keyPairs))]
+	a, b := p[0], p[1]
+	if g.rk.Intn(2) == 0 {
+		a, b = b, a
+	}
+	switch g.rk.Intn(7) {
+	case 0:
+		return []int{a, a, b}
+	case 1:
+		return []int{a, b, a}
+	case 2:
+		return []int{a, 10, b, 11}
+	case 3:
+		q := keyPairs[g.rk.Intn(len(keyPairs))]
+		return []int{a, q[1], b, q[0]}
+	default:
+		return []int{a, b}
+	}
+}
+
+// keyAddrs rewrites the addresses of a Start / Update item of a key-forms
+// case: a pattern in one call, or a single form (the other form of the pair
+// then arrives in another call).
+func (g *gen) keyAddrs(it *Item, p int) {
+	if !g.keyforms || g.rk.Intn(100) >= p {
+		return
+	}
+	if g.rk.Intn(100) < 70 {
+		it.Addrs = append(it.Addrs, g.keyPattern()...)
+	} else {
+		it.Addrs = append(it.Addrs, 6+g.rk.Intn(nAddrAll-5))
+	}
+	if len(it.Addrs) > 1 && g.rk.Intn(3) == 0 {
+		it.Split = true
+	}
 }
 
 func genPool(r *rand.Rand) []PoolTx {
@@ -1143,6 +1257,7 @@ func (g *gen) updateItem(k *kase) Item {
 	if g.r.Intn(100) < 55 && k.toldH >= 1 {
 		it.Rewind = 1 + g.r.Int63n(k.toldH+1) // sometimes at or above the current height: no rewind
 	}
+	g.keyAddrs(&it, 60)
 	return it
 }
 
@@ -1193,6 +1308,7 @@ func (g *gen) waitUpdate(k *kase) Item {
 	if g.r.Intn(100) < 35 && k.toldH >= 1 {
 		it.Rewind = 1 + g.r.Int63n(k.toldH+1)
 	}
+	g.keyAddrs(&it, 60)
 	return it
 }
 
@@ -1426,6 +1542,20 @@ func genCase(seed int64, id int, tier string) (*History, *gen) {
 		g.quits = 1
 	}
 	h := &History{ID: id, Profile: g.profile, Pool: genPool(r)}
+	// about a third of the cases: the pool pays (and spends) the forms of two
+	// keys, watch lists hold several addresses of one key
+	g.rk = c.Rng(seed, id+300007)
+	if g.rk.Intn(100) < 30 {
+		g.keyforms = true
+		h.Profile += "+keyforms"
+		for i := range h.Pool {
+			for j := range h.Pool[i].Outs {
+				if g.rk.Intn(100) < 65 {
+					h.Pool[i].Outs[j] = 6 + g.rk.Intn(nAddrAll-5)
+				}
+			}
+		}
+	}
 	return h, g
 }
 
@@ -1493,6 +1623,7 @@ func (g *gen) preamble(k *kase) {
 			st.Addrs = nil
 		}
 	}
+	g.keyAddrs(&st, 75)
 	g.plan = append(g.plan, st)
 }
 
@@ -1762,6 +1893,18 @@ func main() {
 					}
 				} else {
 					rep.Histogram["cb:disconnected"]++
+				}
+			}
+			if it.Kind == "start" || it.Kind == "update" {
+				has := map[int]bool{}
+				for _, x := range it.Addrs {
+					has[x] = true
+				}
+				for _, p := range keyPairs {
+					if has[p[0]] && has[p[1]] {
+						rep.Histogram["keyforms:"+it.Kind+"-with-both-forms-of-a-key"]++
+						break
+					}
 				}
 			}
 			if it.Recv {
